@@ -46,13 +46,14 @@ Shares(a, b) == Cells(a) \cap Cells(b) # {}
 \* pool of pre-existing objects (tokens distinct inside every component, unsorted, no ties)
 Init ==
   /\ bufs = << Ints(<<3, 1, 2>>), Ints(<<20, 30, 10>>), Ints(<<7, 5>>), Ints(<<9>>),
-               Ints(<<100, 300, 200>>), Ints(<<4, 6, 5>>), Ints(<<2, 0, 1>>), Ints(<<500, 700, 100>>), Ints(<<6, 2, 4>>) >>
+               Ints(<<100, 300, 200>>), Ints(<<4, 6, 5>>), Ints(<<2, 0, 1>>), Ints(<<500, 700, 100>>), Ints(<<6, 2, 4>>),
+               Ints(<<900, 900, 900>>) >>            \* constant rows: equal, element by element, to the 0-d object 4 after conversion - but of another shape
   /\ heap = << mkArr(1, 3, U1("m"), "f8"), mkArr(2, 3, U1("s"), "f8"), mkArr(3, 2, U1("m"), "f8"), mkScal(4, U1("m"), "f8"),
-               mkVec(<<5, 6>>, 3, U1("cm"), "f8"), mkArr(7, 3, Unit0, "i8"), mkArr(8, 3, U1("cm"), "f8"), mkArr(9, 3, U1("m"), "f4") >>
+               mkVec(<<5, 6>>, 3, U1("cm"), "f8"), mkArr(7, 3, Unit0, "i8"), mkArr(8, 3, U1("cm"), "f8"), mkArr(9, 3, U1("m"), "f4"), mkArr(10, 3, U1("cm"), "f8") >>
   /\ dgs = << [keys |-> <<>>, val |-> <<>>, name |-> "", parent |-> 0], [keys |-> <<>>, val |-> <<>>, name |-> "", parent |-> 0] >>
   /\ dss = << [keys |-> <<>>, val |-> <<>>, meta |-> <<>>] >>
   /\ res = NoRes /\ hist = <<>> /\ act = [op |-> "init"]
-PoolObjs == 1..8
+PoolObjs == 1..9
 
 Step(a) == hist' = Append(hist, a) /\ act' = a
 En(name) == name \in Acts /\ Len(hist) < Depth
@@ -105,7 +106,11 @@ DgPop(g, k) ==
   /\ En("pop") /\ Step([op |-> "pop", g |-> g, k |-> k]) /\ UNCHANGED <<heap, bufs, dss>>
   /\ IF HasKey(dgs[g], k) THEN dgs' = [dgs EXCEPT ![g] = DRemove(dgs[g], k)] /\ res' = ObjRes(dgs[g].val[k])
                           ELSE res' = Exc("KeyError") /\ UNCHANGED dgs
-DgGet(g, k) ==       \* get(key, default) and membership and []-lookup, observed together
+DgPopD(g, k) ==      \* pop(key, default): a dictionary never raises here
+  /\ En("pop") /\ Step([op |-> "popd", g |-> g, k |-> k]) /\ UNCHANGED <<heap, bufs, dss>>
+  /\ IF HasKey(dgs[g], k) THEN dgs' = [dgs EXCEPT ![g] = DRemove(dgs[g], k)] /\ res' = ObjRes(dgs[g].val[k])
+                          ELSE res' = NoRes /\ UNCHANGED dgs
+DgGet(g, k) ==       \* get(key) / get(key, default) and membership and []-lookup, observed together
   /\ En("get") /\ Step([op |-> "get", g |-> g, k |-> k]) /\ UNCHANGED <<heap, bufs, dss, dgs>>
   /\ res' = [t |-> "get", has |-> HasKey(dgs[g], k), o |-> IF HasKey(dgs[g], k) THEN dgs[g].val[k] ELSE 0,
              keys |-> dgs[g].keys, len |-> Len(dgs[g].keys)]
@@ -335,7 +340,8 @@ IOp(op, o, rhs) == IOpQ(op, o, rhs, FALSE)
 \* ------------------------------------------------------------------ equality (C20)
 \* element-wise equality after conversion of the right operand into the left operand's unit
 MemEq(a, b) ==
-  IF heap[a].kind # heap[b].kind \/ NComp(a) # NComp(b) \/ ~Compatible(heap[a].unit, heap[b].unit) \/ ShapeOf(a) # ShapeOf(b)
+  \* (a 0-d member and a one-row member correspond element by element: the pinned suite compares dg[1] with one-row groups)
+  IF heap[a].kind # heap[b].kind \/ NComp(a) # NComp(b) \/ ~Compatible(heap[a].unit, heap[b].unit) \/ NRows(a) # NRows(b)
   THEN "undef"        \* no element-wise comparison exists: must not compare equal (False or an exception)
   ELSE IF \A c \in 1..NComp(a), i \in 1..NRows(a) : Vals(a, c)[i] = RMul(Vals(b, c)[i], Ratio(heap[b].unit, heap[a].unit))
        THEN "eq" ELSE "ne"
@@ -366,6 +372,10 @@ DsPop(d, k) ==
   /\ En("dspop") /\ Step([op |-> "dspop", d |-> d, k |-> k]) /\ UNCHANGED <<heap, bufs, dgs>>
   /\ IF HasKey(dss[d], k) THEN dss' = [dss EXCEPT ![d] = DRemove(dss[d], k)] /\ res' = [t |-> "grp", g |-> dss[d].val[k]]
                           ELSE res' = Exc("KeyError") /\ UNCHANGED dss
+DsPopD(d, k) ==
+  /\ En("dspop") /\ Step([op |-> "dspopd", d |-> d, k |-> k]) /\ UNCHANGED <<heap, bufs, dgs>>
+  /\ IF HasKey(dss[d], k) THEN dss' = [dss EXCEPT ![d] = DRemove(dss[d], k)] /\ res' = [t |-> "grp", g |-> dss[d].val[k]]
+                          ELSE res' = NoRes /\ UNCHANGED dss
 DsGet(d, k) ==
   /\ En("dsget") /\ Step([op |-> "dsget", d |-> d, k |-> k]) /\ UNCHANGED <<heap, bufs, dgs, dss>>
   /\ res' = [t |-> "get", has |-> HasKey(dss[d], k), o |-> IF HasKey(dss[d], k) THEN dss[d].val[k] ELSE 0,
@@ -417,7 +427,7 @@ Next ==
  /\ Len(hist) < Depth
  /\
   \/ \E g \in Gs, k \in Keys, o \in (IF ObjUse = {} THEN Os ELSE ObjUse \cap Os) : DgSet(g, k, o)
-  \/ \E g \in Gs, k \in Keys : DgDel(g, k) \/ DgPop(g, k) \/ DgGet(g, k)
+  \/ \E g \in Gs, k \in Keys : DgDel(g, k) \/ DgPop(g, k) \/ DgPopD(g, k) \/ DgGet(g, k)
   \/ \E g \in Gs : DgClear(g) \/ DgCopy(g) \/ DgDeepCopy(g)
   \/ \E g \in Gs, ps \in PairSeqs : DgUpdate(g, ps)
   \/ \E g \in Gs, kind \in IdxUse : DgIndex(g, kind)
@@ -432,7 +442,7 @@ Next ==
   \/ \E op \in OpsUse, o \in (IF ObjUse = {} THEN Os ELSE ObjUse \cap Os), c \in 1..3 : IOpSelf(op, o, c)
   \/ \E g, h \in Gs : DgEq(g, h)
   \/ \E d \in Ds, k \in Keys, g \in Gs : DsSet(d, k, g)
-  \/ \E d \in Ds, k \in Keys : DsSetBad(d, k, 1) \/ DsUpdateBad(d, k, 5) \/ DsDel(d, k) \/ DsPop(d, k) \/ DsGet(d, k)
+  \/ \E d \in Ds, k \in Keys : DsSetBad(d, k, 1) \/ DsUpdateBad(d, k, 5) \/ DsDel(d, k) \/ DsPop(d, k) \/ DsPopD(d, k) \/ DsGet(d, k)
   \/ \E d \in Ds : DsMeta(d, "t") \/ DsClear(d) \/ DsCopy(d) \/ DsDeepCopy(d)
   \/ \E d \in Ds, g1, g2 \in Gs : DsUpdate(d, <<<<"a", g1>>, <<"b", g2>>>>)
 Spec == Init /\ [][Next]_vars
